@@ -241,6 +241,19 @@ static int mode_direct(int cases, int max_nr, int max_nt)
         int nr = pick_nr(rng, max_nr), nt = pick_nt(rng, max_nt);
         Problem p = make_problem(rng, nr, nt);
         std::optional<double> split = rng.coin(0.3) ? std::optional<double>(rng.uniform(p.R0, p.Rmax)) : std::nullopt;
+      // object history: every third problem is solved a second time on the SAME radii, angles and boundary mode with a different
+      // circle / radial split (other node numbering, other positions of the boundary rows) — whatever a solver remembers from an
+      // earlier solver of the same size in this process must not leak into the next one
+      for (int pass = 0; pass < (c % 3 == 2 ? 2 : 1); pass++) {
+        if (pass == 1) {
+            Chain first = make_chain(p, 1, true, true, split);
+            const PolarGrid& g0 = first.levels[0]->grid();
+            const int nc0 = g0.numberSmootherCircles();
+            // a splitting radius between two radii such that the number of circles changes (and stays admissible)
+            int want = nc0 >= g0.nr() / 2 ? std::max(2, nc0 - 2) : std::min(g0.nr() - 3, nc0 + 2);
+            if (want == nc0 || want < 1 || want >= g0.nr()) break;
+            split = 0.5 * (g0.radius(want - 1) + g0.radius(want));
+        }
         Chain ch = make_chain(p, 1, true, true, split);
         const PolarGrid& g = ch.levels[0]->grid();
         emit_level("LV", p, g, p.dirbc);
@@ -257,6 +270,7 @@ static int mode_direct(int cases, int max_nr, int max_nt)
                 else { DirectSolverTakeCustomLU d(g, ch.levels[0]->levelCache(), *p.geo, *p.coef, p.dirbc, threads); d.solveInPlace(bv); if (threads == 1 && N <= 200) mat = csr_dump(g, GMGPolarVerif::matrix(d)); }
                 printf("DS strat=%s threads=%d b=%s x=%s mat=%s\n", strat == 0 ? "give" : "take", threads, hexvec(b).c_str(), hexvec(to_rowmajor(g, bv)).c_str(), mat.empty() ? "-" : mat.c_str());
             }
+      }
     }
     printf("end\n");
     return 0;
